@@ -624,7 +624,9 @@ func (g *wgen) gen() {
 				if r.Chance(1, 2) {
 					// a script position always worth re-casing: an untrusted input reached through index literals
 					d.w(f, " ")
-					d.e(f, r.Pick([]string{"github.event['pull_request'].title", "github.event.pull_request['title']", "github['head_ref']", "github.event['comment']['body']"}))
+					d.e(f, r.Pick([]string{"github.event['pull_request'].title", "github.event.pull_request['title']", "github['head_ref']", "github.event['comment']['body']",
+						// an untrusted input passed to one of the calls that make it harmless, whatever the spelling of the function
+						"contains(github.event.pull_request.title, 'x')", "startsWith(github.head_ref, 'a')", "endsWith(github.event.issue.title, 'z')"}))
 				}
 				d.w(f, "\n")
 				if r.Chance(1, 2) {
@@ -654,6 +656,15 @@ func (g *wgen) gen() {
 				}
 			}
 		}
+		if ji == 0 || r.Chance(1, 3) {
+			// an untrusted input passed to a call that makes it harmless (contains / startsWith /
+			// endsWith in any spelling), next to one that does not (format)
+			d.w(f, "      - run: echo ")
+			d.e(f, r.Pick([]string{"contains(github.event.pull_request.title, 'x')", "startsWith(github.head_ref, 'a')", "endsWith(github.event.issue.title, 'z')"}))
+			d.w(f, " ")
+			d.e(f, "format('{0}', github.event.pull_request.body)")
+			d.w(f, "\n")
+		}
 	}
 	// a job that calls the local reusable workflow
 	if r.Chance(3, 4) {
@@ -678,6 +689,9 @@ func (g *wgen) gen() {
 			d.w(f, ": ")
 			if k == ruIn[0] || k == "nosuch_input" {
 				d.e(f, "needs."+g.jobs[0]+".outputs."+g.jobOut[g.jobs[0]][0])
+			} else if r.Chance(1, 2) {
+				// a value whose type does not fit the declared type of the input (when it has one)
+				d.e(f, "github.sha")
 			} else {
 				d.w(f, "1")
 			}
